@@ -31,7 +31,15 @@ RULE = (
     "detailed_validation=b) | GenConverter | Converter | a user converter carrying its own int hook) / add_input / use / "
     "drop (a converter is forgotten and collected, so addresses are reused); "
     "invariant after every step: every non-customised converter gives, for every battery input, the outcome of an "
-    "independent fresh converter (separate process), and every converter the outcome it gave before the latest step. (C, thorough) real threads with a 1e-6 switch "
+    "independent fresh converter (separate process), and every converter the outcome it gave before the latest step. "
+    "Schedules may continue into each thread's *first use* (structure/unstructure of drawn battery inputs inside the schedule, "
+    "yield points = lines of every module of the package; phase-relative segments stop a thread k yield points into its first "
+    "use); what a thread observes there is compared with the sequential reference too. Histories also contain creations that are "
+    "cut short (fail-create: an asynchronous exception at the n-th source line of the package or at the n-th call the package "
+    "makes into a library, or a RecursionError with n frames of head-room): the next ordinary converter is compared on one "
+    "small value of every structure; (E) dedicated histories put such a fault into the very first creation of the process. "
+    "(D) every non-customised configuration against get_converter() on routed values of every union alternative. "
+    "(C, thorough) real threads with a 1e-6 switch "
     "interval, fresh process per trial. non-trivial = schedule with >=1 switch inside the resolution window / history "
     "with >=2 converters of different configuration and a use between creations; distinct = the schedule / history"
 )
@@ -88,6 +96,13 @@ def fixed_battery() -> List[Tuple[str, Any]]:
         ("CompletionItem", {"label": "l", "x-vendor": True, "textEdit": {"range": rng, "newText": "n", "more": None}}),
         ("InitializeRequest", {"jsonrpc": "2.0", "id": 1, "method": "initialize", "trace-id": "t",
                                "params": {"processId": None, "rootUri": None, "capabilities": {"vendor": {}}, "zz": 0}}),
+        # null-versus-omitted decisions (per-class serialisation functions built at first use)
+        ("TextDocumentRegistrationOptions", {"documentSelector": None}),
+        ("ShutdownResponse", {"jsonrpc": "2.0", "id": 1, "result": None}),
+        ("ExitNotification", {"jsonrpc": "2.0", "method": "exit"}),
+        ("CreateFile", {"kind": "create", "uri": "u"}),
+        ("VersionedTextDocumentIdentifier", {"uri": "u", "version": 0}),
+        ("OptionalVersionedTextDocumentIdentifier", {"uri": "u", "version": None}),
         # rejected inputs
         ("Position", {"line": -1, "character": 0}),
         ("Position", {"line": 1}),
@@ -119,6 +134,7 @@ class Scheduler:
         self.cv = threading.Condition()
         self.current: Optional[int] = None
         self.remaining = 0
+        self.count_use_only = False   # the grant counts only yield points of the thread's first-use phase
         self.waiting: set = set()
         self.done: set = set()
         self.grace = grace
@@ -127,11 +143,12 @@ class Scheduler:
         self.trace: List[Tuple[int, int]] = []
         self.blocked_skips = 0
 
-    def yield_point(self, tid: int) -> None:
+    def yield_point(self, tid: int, in_use: bool = False) -> None:
         with self.cv:
             self.points[tid] += 1
             if self.current == tid:
-                self.remaining -= 1
+                if in_use or not self.count_use_only:
+                    self.remaining -= 1
                 if self.remaining > 0:
                     return
                 self.current = None
@@ -172,8 +189,10 @@ class Scheduler:
                     self.cv.wait(0.01)
                     continue
                 choice = None
+                use_only = False
                 while seg < len(self.segments):
-                    tid, length = self.segments[seg]
+                    tid, length = self.segments[seg][0], self.segments[seg][1]
+                    use_only = len(self.segments[seg]) > 2 and bool(self.segments[seg][2])
                     tid %= self.n
                     seg += 1
                     if tid in runnable:
@@ -181,6 +200,8 @@ class Scheduler:
                         break
                 if choice is None:
                     choice = (runnable[0], 10**9)  # remainder: sequential, lowest thread first
+                    use_only = False
+                self.count_use_only = use_only
                 if last_tid is not None and choice[0] != last_tid and last_tid not in self.done:
                     self.switches += 1  # a switch while the previous thread is still inside its first call
                 last_tid = choice[0]
@@ -189,36 +210,50 @@ class Scheduler:
                 self.cv.notify_all()
 
 
-def child_schedule(n: int, segments: List[Tuple[int, int]], battery: List[Tuple[str, Any]]) -> dict:
+def child_schedule(n: int, segments: List[Tuple[int, int]], battery: List[Tuple[str, Any]], use: Optional[List[int]] = None) -> dict:
+    """use: indices of battery inputs that every thread also runs through its new converter *inside* the schedule (the
+    first structure/unstructure of a class builds per-class functions, and may fill lazily built tables of the package)."""
     t, h, c = pkg()
     # yield points: every call into, and every line of, the package's hook module during get_converter() - whatever the
     # functions are called (a refactoring of the first-use path must not blind the scheduler); capped per thread, so the
     # per-converter registration code that follows the once-only part runs freely
     hooks_file = h.__file__
+    pkg_dir = os.path.dirname(os.path.abspath(hooks_file))
     CAP = 9000
+    USE_CAP = 2500
     sched = Scheduler(n, segments)
     results: Dict[int, Any] = {}
+    in_thread: Dict[int, List[Any]] = {}   # what each thread itself observed during its first use
     tls = threading.local()
 
     def tracer(frame, event, arg):
-        if event == "call" and frame.f_code.co_filename == hooks_file and tls.count < CAP:
+        if event == "call" and tls.count < tls.cap and (
+                frame.f_code.co_filename == hooks_file or (tls.using and os.path.dirname(frame.f_code.co_filename) == pkg_dir)):
             tls.count += 1
-            sched.yield_point(tls.tid)
+            sched.yield_point(tls.tid, tls.using)
             return line_tracer
         return None
 
     def line_tracer(frame, event, arg):
-        if event == "line" and tls.count < CAP:
+        if event == "line" and tls.count < tls.cap:
             tls.count += 1
-            sched.yield_point(tls.tid)
+            sched.yield_point(tls.tid, tls.using)
         return line_tracer
 
     def worker(tid: int) -> None:
         tls.tid = tid
         tls.count = 0
+        tls.cap = CAP
+        tls.using = False
         sys.settrace(tracer)
         try:
             conv = c.get_converter()
+            if use:
+                # first use inside the schedule: yield points are the lines of every module of the package
+                tls.using, tls.count, tls.cap = True, 0, USE_CAP
+                for bi in use:
+                    name, j = battery[bi % len(battery)]
+                    in_thread.setdefault(tid, []).append([bi % len(battery), outcome(conv, t, name, j)])
             sys.settrace(None)
             results[tid] = ("ok", conv)
         except BaseException as e:
@@ -235,7 +270,7 @@ def child_schedule(n: int, segments: List[Tuple[int, int]], battery: List[Tuple[
         th.join(5)
     out: Dict[str, Any] = {"raised": [], "outcomes": {}, "points": dict(sched.points), "switches": sched.switches,
                            "trace": sched.trace[:12], "blocked_skips": sched.blocked_skips,
-                           "resolved_flag": not pristine(t)}
+                           "resolved_flag": not pristine(t), "in_thread": {str(k): v for k, v in in_thread.items()}}
     for tid in range(n):
         r = results.get(tid)
         if r is None:
@@ -309,13 +344,22 @@ def _work_sched(args) -> dict:
     samples: List[Any] = []
     distinct = set()
     seg = st.tuples(st.integers(0, 3), st.one_of(st.integers(1, 40), st.integers(1, 4000)))
-    strat = st.tuples(st.integers(2, 4), st.lists(seg, min_size=1, max_size=8))
+    use_s = st.one_of(st.just([]), st.lists(st.integers(0, len(battery) - 1), min_size=1, max_size=6))
+    strat = st.tuples(st.integers(2, 4), st.lists(seg, min_size=1, max_size=10), use_s)
+    # phase-relative schedules: thread a is stopped k yield points into its *first use* (whatever its creation took), the
+    # others then run their creation and first use to the end, a resumes
+    use1 = st.lists(st.integers(0, len(battery) - 1), min_size=1, max_size=6)
+    targeted = st.tuples(st.integers(2, 3), st.integers(0, 2), st.one_of(st.integers(1, 60), st.integers(1, 2400)), st.lists(seg, max_size=3), use1).map(
+        lambda x: (x[0], [(x[1], x[2], 1), ((x[1] + 1) % x[0], 10**6)] + [tuple(s) for s in x[3]], x[4]))
+    strat = st.one_of(strat, strat, targeted)
 
     def one(x):
-        n, segments = x
-        res = in_child(child_schedule, n, segments, battery)
+        n, segments, use = (tuple(x) + ([],))[:3]
+        res = in_child(child_schedule, n, segments, battery, use)
         stats["cases"] += 1
-        case = {"threads": n, "segments": [list(s) for s in segments]}
+        if use:
+            stats["cases_with_first_use_in_threads"] += 1
+        case = {"threads": n, "segments": [list(s) for s in segments], "use": list(use)}
         if res is None:
             stats["inconclusive_timeouts"] += 1
             return
@@ -330,6 +374,11 @@ def _work_sched(args) -> dict:
             import re
             norm = re.sub(r"\d+", "N", msg)[:80]
             ctx.finding(("first-use-raises", "get_converter", norm), f"thread {tid} of {n}: {msg}; schedule {case['segments']}", dict(case, error=msg, tb=tb))
+        for tid, seen in res.get("in_thread", {}).items():
+            for bi, got in seen:
+                if got != ref["outcomes"][bi]:
+                    ctx.finding(("converter-differs", battery[bi][0], "during-concurrent-first-use"),
+                                f"thread {tid}, inside the schedule: {battery[bi][0]} {battery[bi][1]!r} -> {got} but sequential reference {ref['outcomes'][bi]}", case)
         for tid, outs in res["outcomes"].items():
             if outs != ref["outcomes"]:
                 k = next(i for i, (a, b) in enumerate(zip(outs, ref["outcomes"])) if a != b)
@@ -341,7 +390,7 @@ def _work_sched(args) -> dict:
         for name in sorted(os.listdir(d)) if os.path.isdir(d) else []:
             with open(os.path.join(d, name)) as f:
                 cs = json.load(f)["case"]
-            one((cs["threads"], [tuple(s) for s in cs["segments"]]))
+            one((cs["threads"], [tuple(s) for s in cs["segments"]], cs.get("use", [])))
             stats["regress_schedules"] += 1
     mini(strat, n_cases, (seed, "C19", "sched", shard), one)
     return {"violations": list(ctx.violations.values()), "known_hits": ctx.known_hits, "known_examples": ctx.known_examples,
@@ -351,9 +400,10 @@ def _work_sched(args) -> dict:
 # ---- (B) creation histories ---------------------------------------------------------------------------
 CONFIGS = ["fresh", "Converter(dv=True)", "Converter(dv=False)", "GenConverter()", "Converter()", "custom-int-hook", "custom-forbid-extra"]
 CUSTOMISED = ("custom-int-hook", "custom-forbid-extra")
+PLAIN_KINDS = [k for k in CONFIGS if k not in CUSTOMISED]
 
 
-def child_history(ops: List[Any], fixed: List[Tuple[str, Any]], reference: List[Any]) -> dict:
+def child_history(ops: List[Any], fixed: List[Tuple[str, Any]], reference: List[Any], wide: Optional[list] = None) -> dict:
     """executes a creation history in a pristine process; invariants are evaluated after every step."""
     t, h, c = pkg()
     import cattrs
@@ -361,6 +411,7 @@ def child_history(ops: List[Any], fixed: List[Tuple[str, Any]], reference: List[
     battery: List[Tuple[str, Any]] = list(fixed)
     memo: Dict[int, List[Any]] = {}
     findings: List[Any] = []
+    faults: List[Any] = []
     evaluations = 0
 
     def make(kind: str):
@@ -382,12 +433,34 @@ def child_history(ops: List[Any], fixed: List[Tuple[str, Any]], reference: List[
             return c.get_converter(base)
         raise ValueError(kind)
 
+    pending_wide = False
     for step, op in enumerate(ops):
         if op[0] == "create":
             try:
                 convs.append((op[1], make(op[1])))
             except Exception as e:
                 findings.append([["create-raises", "get_converter", op[1]], f"{type(e).__name__}: {e}", step])
+                continue
+            if pending_wide and wide and op[1] not in CUSTOMISED:
+                # the first ordinary converter after a cut-short creation: one small value of every structure
+                pending_wide = False
+                wb, wref = wide
+                for (name, j), ref in zip(wb, wref):
+                    evaluations += 1
+                    got = outcome(convs[-1][1], t, name, j)
+                    if got != ref:
+                        findings.append([["converter-differs-after-failed-creation", name, op[1]],
+                                         f"{name} {json.dumps(j)[:120]}: the converter created after a cut-short creation gives {str(got)[:120]}, an independent fresh converter {str(ref)[:120]}", step])
+                        break
+        elif op[0] == "fail-create":
+            # a creation that is cut short: an asynchronous exception (as Ctrl-C or a signal-driven timeout raise it) at the
+            # n-th source line executed inside the package, or too little stack left. Whatever it leaves behind, the
+            # converters created afterwards are ordinary converters.
+            conv, failed = faulty_create(c, make, op[1], op[2], op[3])
+            faults.append([op[1], op[2], bool(failed)])
+            pending_wide = pending_wide or bool(failed)
+            if conv is not None:
+                convs.append((op[3], conv))
         elif op[0] == "add_input":
             battery.append((op[1], op[2]))
         elif op[0] == "drop" and convs:
@@ -417,7 +490,63 @@ def child_history(ops: List[Any], fixed: List[Tuple[str, Any]], reference: List[
                 findings.append([["behaviour-changed", battery[k][0], label],
                                  f"converter #{idx} ({label}) changed its outcome for {battery[k][0]} at step {step} ({op[:2]})", step])
             memo[idx] = outs
-    return {"findings": findings[:20], "evaluations": evaluations}
+    return {"findings": findings[:20], "evaluations": evaluations, "faults": faults}
+
+
+class Injected(BaseException):
+    """stands for KeyboardInterrupt / an exception raised by a signal handler"""
+
+
+def faulty_create(c, make, mode: str, n: int, kind: str):
+    """-> (converter or None, the injected failure or None)"""
+    import inspect
+    pkg_dir = os.path.dirname(os.path.abspath(c.__file__))
+    if mode == "interrupt":
+        count = [0]
+
+        def hit() -> None:
+            count[0] += 1
+            if count[0] == n:
+                raise Injected()
+
+        def line_tracer(frame, event, arg):
+            if event == "line":
+                hit()
+            return line_tracer
+
+        def in_pkg(frame) -> bool:
+            return frame is not None and os.path.dirname(frame.f_code.co_filename) == pkg_dir
+
+        def tracer(frame, event, arg):
+            # fault points: every source line of the package, and every call the package makes into a library
+            # (the exception then reaches the package as if the callee had raised it)
+            if event == "call":
+                if in_pkg(frame):
+                    return line_tracer
+                if in_pkg(frame.f_back):
+                    hit()
+            return None
+
+        sys.settrace(tracer)
+        try:
+            conv = make(kind)
+            return conv, None
+        except Injected as e:
+            return None, e
+        finally:
+            sys.settrace(None)
+    else:  # "stack": n frames of head-room
+        old = sys.getrecursionlimit()
+        depth = len(inspect.stack(0))
+        try:
+            sys.setrecursionlimit(depth + 4 + n)
+            try:
+                conv = make(kind)
+                return conv, None
+            except RecursionError as e:
+                return None, e
+        finally:
+            sys.setrecursionlimit(old)
 
 
 def _work_hist(args) -> dict:
@@ -446,6 +575,12 @@ def _work_hist(args) -> dict:
         req, resp = model.message_class_names(kind_, msg_)
         return resp if root[1] == "response" else req
 
+    wide_battery = wide_battery_for(seed)
+    wref = in_child(child_reference, wide_battery)
+    if wref is None:
+        raise HarnessError("reference child for the wide battery timed out")
+    wide = [wide_battery, wref["outcomes"]]
+
     class Hist(RuleBasedStateMachine):
         def __init__(self):
             super().__init__()
@@ -455,6 +590,12 @@ def _work_hist(args) -> dict:
         @rule(kind=st.sampled_from(CONFIGS))
         def create(self, kind):
             self.ops.append(["create", kind])
+
+        @precondition(lambda self: sum(o[0] == "fail-create" for o in self.ops) < 3)
+        @rule(mode=st.sampled_from(["interrupt", "interrupt", "stack"]), kind=st.sampled_from(PLAIN_KINDS),
+              n=st.one_of(st.integers(1, 1800), st.integers(1, 60), st.integers(1, 6000)))
+        def fail_create(self, mode, kind, n):
+            self.ops.append(["fail-create", mode, n if mode == "interrupt" else n % 64, kind])
 
         @precondition(lambda self: self.n_inputs < 12)
         @rule(data=st.data(), ri=st.integers(0, 10**6), broken=st.booleans())
@@ -468,7 +609,7 @@ def _work_hist(args) -> dict:
             self.n_inputs += 1
             self.ops.append(["add_input", type_name(root), j])
 
-        @precondition(lambda self: any(o[0] == "create" for o in self.ops))
+        @precondition(lambda self: any(o[0] in ("create", "fail-create") for o in self.ops))
         @rule(ci=st.integers(0, 100), bi=st.integers(0, 1000))
         def use(self, ci, bi):
             self.ops.append(["use", ci, bi])
@@ -479,19 +620,25 @@ def _work_hist(args) -> dict:
             self.ops.append(["drop", ci])
 
         def teardown(self):
-            if not any(o[0] == "create" for o in self.ops):
+            if not any(o[0] in ("create", "fail-create") for o in self.ops):
                 return
+            last_fault = max([i for i, o in enumerate(self.ops) if o[0] == "fail-create"], default=None)
+            if last_fault is not None and not any(o[0] == "create" for o in self.ops[last_fault + 1:]):
+                self.ops.append(["create", "fresh"])   # what a cut-short creation leaves behind shows in the next converter
             battery = fixed + [(o[1], o[2]) for o in self.ops if o[0] == "add_input"]
             ref = in_child(child_reference, battery)
-            res = in_child(child_history, self.ops, fixed, ref["outcomes"]) if ref is not None else None
+            res = in_child(child_history, self.ops, fixed, ref["outcomes"], wide) if ref is not None else None
             stats["histories"] += 1
             if res is None:
                 stats["inconclusive_timeouts"] += 1
                 return
             stats["creations"] += sum(1 for o in self.ops if o[0] == "create")
+            stats["faulty_creations"] += len(res.get("faults", []))
+            stats["faulty_creations_that_failed"] += sum(1 for f in res.get("faults", []) if f[2])
+            stats["faulty_first_creations_that_failed"] += sum(1 for f in res.get("faults", [])[:1] if f[2] and self.ops and self.ops[0][0] == "fail-create")
             stats["uses"] += sum(1 for o in self.ops if o[0] == "use")
             stats["battery_evaluations"] += res["evaluations"]
-            short = [o[:2] if o[0] != "use" else o for o in self.ops]
+            short = [o[:2] if o[0] not in ("use", "fail-create") else o for o in self.ops]
             histories.append(short)
             for sig, detail, step in res["findings"]:
                 ctx.finding(tuple(sig), detail + f"; history {short[: step + 1]}", {"ops": self.ops[: step + 1]})
@@ -553,8 +700,61 @@ def _work_real(args) -> dict:
             "stats": dict(stats), "samples": [], "distinct": [], "kind": "real"}
 
 
+# ---- (E) the first creation of the process is cut short --------------------------------------------------------------
+def wide_battery_for(seed: int):
+    from .. import tvgen
+    from ..refmodel import Model, load_doc
+    model = Model(load_doc(repo_path("generator", "lsp.json")))
+    objects = tvgen.Objects(model)
+    names = [s for s in sorted(model.structs) if not s.startswith("_")]
+    drawn: List[Any] = []
+    for name_ in names:
+        mini(tvgen.value_strategy(objects, ("struct", name_), tvgen.GenCfg(mode="min", max_nodes=40)), 1, (seed, "C19wide", name_),
+             lambda x: drawn.append(x))
+    return [(n_, tvgen.erase(x[0])) for n_, x in zip(names, drawn)]
+
+
+def _work_fault(args) -> dict:
+    """histories [creation cut short at fault point n, then ordinary creations]: the once-only part of the first creation is
+    where a failure can leave process-wide state half done, so the fault points are drawn densely there."""
+    shard, seed, count = args
+    t, h, c = pkg()
+    if not pristine(t):
+        raise HarnessError("fault worker is not pristine")
+    ctx = Ctx("C19", "quick", seed)
+    stats = collections.Counter()
+    fixed = fixed_battery()
+    wb = wide_battery_for(seed)
+    wref = in_child(child_reference, wb)
+    ref = in_child(child_reference, fixed)
+    if wref is None or ref is None:
+        raise HarnessError("reference child timed out")
+    wide = [wb, wref["outcomes"]]
+    distinct = []
+
+    def one(x):
+        mode, n, kind, second = x
+        ops = [["fail-create", mode, n, kind], ["create", second], ["create", "fresh"]]
+        res = in_child(child_history, ops, fixed, ref["outcomes"], wide)
+        stats["fault_histories"] += 1
+        if res is None:
+            stats["inconclusive_timeouts"] += 1
+            return
+        if res["faults"] and res["faults"][0][2]:
+            stats["first_creation_failed"] += 1
+            distinct.append(json.dumps(["fault", mode, n]))
+        stats["battery_evaluations"] += res["evaluations"]
+        for sig, detail, step in res["findings"]:
+            ctx.finding(tuple(sig), detail + f"; history {ops[: step + 1]}", {"ops": ops[: step + 1]})
+
+    strat = st.tuples(st.sampled_from(["interrupt", "interrupt", "interrupt", "stack"]),
+                      st.one_of(st.integers(1, 2400), st.integers(1, 64)), st.sampled_from(PLAIN_KINDS), st.sampled_from(PLAIN_KINDS))
+    mini(strat.map(lambda x: (x[0], x[1] if x[0] == "interrupt" else x[1] % 64, x[2], x[3])), count, (seed, "C19fault", shard), one)
+    return {"violations": list(ctx.violations.values()), "known_hits": ctx.known_hits, "known_examples": ctx.known_examples,
+            "stats": dict(stats), "samples": [], "distinct": distinct, "kind": "fault"}
+
+
 # ---- (D) configurations x generated inputs ------------------------------------------------------------------------
-PLAIN_CONFIGS = [k for k in CONFIGS if k not in CUSTOMISED]
 
 
 def union_items(model, objects, sites_per_occurrence: Optional[int]) -> List[tuple]:
@@ -573,6 +773,14 @@ def union_items(model, objects, sites_per_occurrence: Optional[int]) -> List[tup
 
 
 def _work_cfg(args) -> dict:
+    # in a child of its own: the pool worker must stay pristine for the jobs that fork pristine children from it
+    res = in_child(_cfg_body, args, timeout=3600)
+    if res is None:
+        raise HarnessError("configuration worker timed out")
+    return res
+
+
+def _cfg_body(args) -> dict:
     """every union alternative at its use sites, k routed values each: all non-customised configurations must give the
     outcome of the plain get_converter() (the unions are where configuration-dependent machinery of cattrs is used)."""
     shard, nshards, seed, k, sites_per_occurrence = args
@@ -632,7 +840,7 @@ def _work_cfg(args) -> dict:
 
 def _dispatch(job):
     kind = job[0]
-    return {"sched": _work_sched, "hist": _work_hist, "real": _work_real, "cfg": _work_cfg}[kind](job[1:])
+    return {"sched": _work_sched, "hist": _work_hist, "real": _work_real, "cfg": _work_cfg, "fault": _work_fault}[kind](job[1:])
 
 
 def run(ctx: Ctx) -> None:
@@ -641,10 +849,10 @@ def run(ctx: Ctx) -> None:
         raise HarnessError("main process is not pristine")
     if ctx.quick:
         jobs = [("sched", s, ctx.seed, 5) for s in range(10)] + [("hist", s, ctx.seed, 8, 12) for s in range(6)]
-        jobs += [("cfg", s, 8, ctx.seed, 4, 2) for s in range(8)]
+        jobs += [("cfg", s, 8, ctx.seed, 4, 2) for s in range(8)] + [("fault", s, ctx.seed, 5) for s in range(8)]
     else:
         jobs = [("sched", s, ctx.seed, 60) for s in range(10)] + [("hist", s, ctx.seed, 40, 25) for s in range(4)] + [("real", s, ctx.seed, 25) for s in range(2)]
-        jobs += [("cfg", s, 16, ctx.seed, 40, None) for s in range(16)]
+        jobs += [("cfg", s, 16, ctx.seed, 40, None) for s in range(16)] + [("fault", s, ctx.seed, 60) for s in range(16)]
     results = runner.pmap(_dispatch, jobs)
     stats = collections.Counter()
     distinct = set()
@@ -655,7 +863,7 @@ def run(ctx: Ctx) -> None:
         distinct |= set(r["distinct"])
         samples.extend(r["samples"][:1])
         ctx.merge_worker(r)
-    evaluations = stats["sched:cases"] + stats["hist:creations"] + stats["hist:uses"] + stats["real:real_thread_trials"] + stats["cfg:cfg_comparisons"]
+    evaluations = stats["sched:cases"] + stats["hist:creations"] + stats["hist:uses"] + stats["real:real_thread_trials"] + stats["cfg:cfg_comparisons"] + stats["fault:fault_histories"]
     if stats["hist:histories"] == 0 or stats["sched:cases"] == 0:
         raise HarnessError("no schedules or no histories were executed")
     ctx.coverage.update({
@@ -666,6 +874,7 @@ def run(ctx: Ctx) -> None:
         "interleavings at source-line granularity inside _resolve_forward_references and at calls of its _filter closure; switches inside C code are not controlled (atomic under the GIL)",
         "outcomes are compared as raised / serialised JSON, never by exception type",
         "a child that exceeds its time limit is inconclusive, never a violation",
+        "a creation interrupted by an injected asynchronous exception or RecursionError is a failed creation, not a violation; the converters created after it are held to the property",
     ]
 
 
@@ -692,7 +901,7 @@ def replay(ctx: Ctx, path: str) -> int:
         return ctx.finish()
     t, h, c = pkg()
     battery = fixed_battery()
-    res = in_child(child_schedule, case["threads"], [tuple(s) for s in case["segments"]], battery)
+    res = in_child(child_schedule, case["threads"], [tuple(s) for s in case["segments"]], battery, case.get("use", []))
     if res is None:
         print("[C19] replay: child timed out (inconclusive)")
         return 2
